@@ -24,7 +24,7 @@ from typing import Any, Optional
 import sympy as sp
 import z3
 
-from .core import Ob, PROVED, REFUTED, UNKNOWN, FAULT, PKG, VERIF, seed
+from .core import Ob, PROVED, REFUTED, UNKNOWN, FAULT, PKG, VERIF, seed, try_replay
 from .smt import prove as smt_prove, check_sat, model_str
 from .sym2smt import Tr, Unsupported, nf_is_zero
 
@@ -315,6 +315,11 @@ RULE_TEXT = {
                 "decorator entry: a plain number), annotated float / int / Quantity, and only when the leftover law symbol "
                 "is declared dimensionless; a parameter with a dimension-only guard is NOT associated by this rule; anything "
                 "else: out_of_reach",
+    "R-named-result": "association rule R-named-result: when validate_output names a law symbol that already stands for a "
+                      "guarded parameter (the gate only uses its dimension), every parameter is associated, exactly ONE plain "
+                      "law symbol is left over, the function is called calculate_<module name of that symbol> and the symbol "
+                      "has the dimension validate_output demands, the result stands for that symbol; anything else: "
+                      "out_of_reach",
 }
 
 
@@ -548,7 +553,22 @@ def _associate(c: Contract, mod, eq):
                     f"{len(free)} unassociated symbols")
     res_leaves = shape_flat(res)
     if any(r in used for r in res_leaves):
-        return f"result symbol {res} also guards a parameter"
+        # rule R-named-result: validate_output names a symbol that already stands for a parameter (a copy-paste slip in the
+        # decorator; the gate only uses its dimension).  If every parameter is associated, exactly one plain law symbol is
+        # left over, the function is called calculate_<that symbol's module name> and its dimension is the one the decorator
+        # demands, the result stands for that symbol.  Anything else stays out of reach.
+        free = [s for s in plain_free() if s not in used]
+        named = vars(mod).get(c.fname[len("calculate_"):])
+        d_out, d_free = getattr(res, "dimension", None), getattr(free[0], "dimension", None) if len(free) == 1 else None
+        if (c.out_kind == "sym" and not pending and len(free) == 1 and named is free[0] and d_out is not None
+                and d_free is not None and _dims_equiv(d_free, d_out)):
+            notes.append(f"R-named-result: validate_output names {res}, which stands for a parameter; result <-> {free[0]} "
+                         f"(the only law symbol left, the function is named after it, same dimension)")
+            rules.append("R-named-result")
+            res, rhow = free[0], "remaining-symbol+function-name"
+            res_leaves = shape_flat(res)
+        else:
+            return f"result symbol {res} also guards a parameter"
     # ---- rule R-unique: one unguarded parameter left, one dimensionless law symbol left
     if pending:
         p = pending[0]
@@ -1362,10 +1382,11 @@ def _term_scale(side, pairs):
 
 
 # ---------------------------------------------------------------------------------- replay support (used by scripts)
-def replay_point(modname: str, fname: str, law_attr: str, args: dict, op: str = "", _contract=None):
+def replay_point(modname: str, fname: str, law_attr: str, args: dict, op: str = "", _contract=None, earlier: dict = None):
     """Executed by `check --replay`: call the REAL decorated function on real Quantities and assert the law residual.
 
-    args: {param: ("q", si_value, prefix) | ("f", value) | ("i", value) | ("list", [entries...])}"""
+    args: {param: ("q", si_value, prefix) | ("f", value) | ("i", value) | ("list", [entries...])}
+    earlier: arguments of a call made first in the same process (call-history clause); its outcome is not judged."""
     if _contract is not None:
         c = _contract
     else:
@@ -1376,6 +1397,9 @@ def replay_point(modname: str, fname: str, law_attr: str, args: dict, op: str = 
     assert hit, f"equation {law_attr} not found"
     n, eq, assoc = hit[0]
     _fill_targets(c, assoc)
+    if earlier is not None:
+        print("earlier call in the same process with", earlier)
+        c.decorated(**{p.name: _build_arg(p, earlier[p.name]) for p in c.params})
     kwargs = {}
     for p in c.params:
         kwargs[p.name] = _build_arg(p, args[p.name])
@@ -2118,6 +2142,58 @@ def comparison_dependent(c: Contract, eq) -> str:
     return ""
 
 
+NEARBY = 1.0 + 3e-4  # equal to the first call's arguments when printed with 3 significant digits, different as numbers
+
+
+def _nearby(entry):
+    tag = entry[0]
+    if tag == "q":
+        return ("q", entry[1] * NEARBY, entry[2])
+    if tag == "f":
+        return ("f", entry[1] * NEARBY)
+    if tag in ("list", "tuple"):
+        return (tag, [_nearby(e) for e in entry[1]])
+    return entry
+
+
+def _history_clause(c: Contract, law_attr, eq, assoc, entries) -> Optional[dict]:
+    """Call-history clause of the bounded stand-in / audit: straight after an accepted call, the REAL function is called
+    again with arguments that differ in the fourth significant digit; the law must hold for THESE arguments and this value
+    (a result remembered from the earlier call - a cache keyed by a rounded printout, module-level state - does not).
+    None: clause holds or the second call is refused / not evaluable (not judged)."""
+    near = {k: _nearby(v) for k, v in entries.items()}
+    if near == entries:
+        return None
+    try:
+        with time_limit(POINT_TIMEOUT_S):
+            kwargs = {p.name: _build_arg(p, near[p.name]) for p in c.params}
+            result = c.decorated(**kwargs)
+            pairs, n_by_base = _numeric_pairs(c, assoc, kwargs, result)
+            ok, _lv, _rv, detail = numeric_residual(eq, pairs, n_by_base, c.op)
+            if ok or (c.op == "" and _ill_conditioned(eq, pairs, n_by_base, _n_result_pairs(assoc))):
+                return None
+    except BaseException as e:  # noqa: BLE001
+        if isinstance(e, KeyboardInterrupt):
+            raise
+        return None
+    script = replay_script(c, law_attr, near).rstrip("\n")
+    assert script.endswith(")")
+    script = script[:-1] + f", earlier={entries!r})\n"
+    rp = try_replay(script)
+    if not rp["reproduced"]:
+        return None
+    # the same arguments in a fresh process, without the earlier call: if the law fails there too this is not a history effect
+    alone = try_replay(replay_script(c, law_attr, near))
+    return {
+        "name": f"{PID}/{c.qual}/law-holds/after-an-earlier-call",
+        "detail": f"{detail} at {near} when the function was called with {entries} before"
+                  + ("" if alone["reproduced"] else " (the same arguments in a fresh process satisfy the law: the result "
+                                                    "depends on the earlier call)"),
+        "signature": c.qual,
+        "replay": rp,
+    }
+
+
 def bounded_function(c: Contract, law_attr, eq, assoc, rng, npoints: int, wide: bool = False) -> dict:
     """Call the DECORATED real function at seeded random magnitudes and unit prefixes; check the law residual.
 
@@ -2196,6 +2272,10 @@ def bounded_function(c: Contract, law_attr, eq, assoc, rng, npoints: int, wide: 
                 break
             continue
         accepted += 1
+        if ok and accepted == 1 and not wide:
+            h = _history_clause(c, law_attr, eq, assoc, entries)
+            if h is not None:
+                failures.append(h)
         if not ok and len(failures) < 3:
             failures.append({
                 "name": f"{PID}/{c.qual}/law-holds/bounded",
